@@ -427,6 +427,23 @@ fn well_typed(src: &mut Src, st: &mut Stats, _env: &Env) -> CaseResult {
             (ImpOut::SearchErr(a), ImpOut::SearchErr(b2)) => a.class == b2.class,
             _ => false,
         };
+        // ... and applied to every element by a projection: an error is an error of the whole
+        // search, a value comes back once per element (nulls dropped)
+        let proj = *src.pick(&["`[1, 2]`[*].{C}", "`[[1], [2]]`[].{C}", "`{\"a\": 1, \"b\": 2}`.*.{C}", "`[1, 2, 3]`[1:].{C}", "`[1, 2]`[?@].{C}", "`[1, 2]`[?{C} || `true`]", "`[1, 2]`[*].[{C}][0]"]);
+        let per_element = search_text(&proj.replace("{C}", call), &dt);
+        let proj_ok = match (&plain, &per_element) {
+            (ImpOut::SearchErr(a), ImpOut::SearchErr(b2)) => a.class == b2.class,
+            (ImpOut::Ok(_), ImpOut::Ok(J::Arr(_))) => true,
+            _ => false,
+        };
+        if !proj_ok {
+            return Err(Failure::new(
+                "well-typed",
+                "call-outcome-lost-in-projection",
+                format!("{} gives {} but {} gives {}", call, plain.brief(), proj.replace("{C}", call), per_element.brief()),
+                json!({"expression": proj.replace("{C}", call), "document": dt}),
+            ));
+        }
         if !same {
             return Err(Failure::new(
                 "well-typed",
@@ -481,6 +498,101 @@ pub fn near_miss_names(name: &str) -> Vec<String> {
     out
 }
 
+/// The built-in function objects themselves are public: a runtime assembled
+/// from `XFn::new()` or `XFn::default()` under the usual names (or under other
+/// names) enforces the same signatures as the default runtime.
+fn builtin_structs(_env: &Env, st: &mut Stats) -> Vec<Failure> {
+    use jmespath::functions::*;
+    use jmespath::{Runtime, Variable};
+    macro_rules! reg {
+        ($rt:expr, $mode:expr, $( $name:literal => $ty:ident ),* ) => {
+            $( if $mode == 0 { $rt.register_function($name, Box::new($ty::new())); } else { $rt.register_function($name, Box::new(<$ty as Default>::default())); } )*
+        };
+    }
+    let mut fails = vec![];
+    for mode in 0..2 {
+        let mut rt = Runtime::new();
+        reg!(rt, mode,
+            "abs" => AbsFn, "avg" => AvgFn, "ceil" => CeilFn, "contains" => ContainsFn, "ends_with" => EndsWithFn, "floor" => FloorFn, "join" => JoinFn, "keys" => KeysFn,
+            "length" => LengthFn, "map" => MapFn, "max" => MaxFn, "max_by" => MaxByFn, "merge" => MergeFn, "min" => MinFn, "min_by" => MinByFn, "not_null" => NotNullFn,
+            "reverse" => ReverseFn, "sort" => SortFn, "sort_by" => SortByFn, "starts_with" => StartsWithFn, "sum" => SumFn, "to_array" => ToArrayFn, "to_number" => ToNumberFn,
+            "to_string" => ToStringFn, "type" => TypeFn, "values" => ValuesFn);
+        let doc = "{\"n\":-3,\"s\":\"abc\",\"ns\":[3,1,2],\"ss\":[\"b\",\"a\"],\"o\":{\"a\":1},\"objs\":[{\"k\":2},{\"k\":1}],\"z\":null,\"b\":true}";
+        for sig in SIGS {
+            // valid call, one argument too few, one too many, first argument of a wrong type
+            let good: Vec<&str> = sig
+                .params
+                .iter()
+                .map(|p| match p[0] {
+                    Ty::Number => "n",
+                    Ty::Str => "s",
+                    Ty::ArrayNumber => "ns",
+                    Ty::ArrayString => "ss",
+                    Ty::Array => if matches!(sig.name, "sort_by" | "max_by" | "min_by") { "objs" } else { "ns" },
+                    Ty::Object => "o",
+                    Ty::Expref => if sig.name == "map" { "&@" } else { "&k" },
+                    _ => "n",
+                })
+                .collect();
+            let wrong_first = match sig.params[0][0] {
+                Ty::Any => None,
+                Ty::Expref => Some("n"),
+                Ty::Number => Some("s"),
+                _ => Some("b"),
+            };
+            let mut calls = vec![format!("{}({})", sig.name, good.join(", "))];
+            calls.push(format!("{}({})", sig.name, good[..good.len() - 1].join(", ")));
+            if sig.variadic.is_none() {
+                calls.push(format!("{}({}, n)", sig.name, good.join(", ")));
+            }
+            if let Some(w) = wrong_first {
+                let mut g2 = good.clone();
+                g2[0] = w;
+                calls.push(format!("{}({})", sig.name, g2.join(", ")));
+            }
+            for call in calls {
+                st.eval();
+                let want = search_text(&call, doc);
+                let got = match catch(std::panic::AssertUnwindSafe(|| rt.compile(&call).map(|c| c.search(Variable::from_json(doc).unwrap())))) {
+                    Err(p) => {
+                        fails.push(Failure::new("builtin-structs", "panic", p, json!({"expression": call, "constructed_with": if mode == 0 { "new()" } else { "default()" }})));
+                        continue;
+                    }
+                    Ok(Err(e)) => ImpOut::CompileErr(crate::imp::classify(&e)),
+                    Ok(Ok(Ok(v))) => ImpOut::Ok(crate::shape::var_to_j(&v)),
+                    Ok(Ok(Err(e))) => ImpOut::SearchErr(crate::imp::classify(&e)),
+                };
+                let same = match (&want, &got) {
+                    (ImpOut::Ok(a), ImpOut::Ok(b2)) => a.exact_eq(b2),
+                    (ImpOut::SearchErr(a), ImpOut::SearchErr(b2)) => a.class == b2.class,
+                    _ => false,
+                };
+                if !same {
+                    fails.push(Failure::new(
+                        "builtin-structs",
+                        "builtin-struct-differs-from-default-runtime",
+                        format!("{} on a runtime of {}::{} gives {} but the default runtime gives {}", call, sig.name, if mode == 0 { "new()" } else { "default()" }, got.brief(), want.brief()),
+                        json!({"expression": call, "constructed_with": if mode == 0 { "new()" } else { "default()" }, "document": doc}),
+                    ));
+                    if fails.len() > 5 {
+                        return fails;
+                    }
+                }
+                st.nontrivial(&format!("{}|{}", mode, call));
+            }
+        }
+    }
+    fails
+}
+
+fn replay_structs(_case: &Value, env: &Env) -> CaseResult {
+    let mut st = Stats::new();
+    match builtin_structs(env, &mut st).into_iter().next() {
+        None => Ok(()),
+        Some(f) => Err(f),
+    }
+}
+
 fn replay_cell(case: &Value, _env: &Env) -> CaseResult {
     let mut st = Stats::new();
     check_cell("table", case["expression"].as_str().unwrap_or(""), case["document"].as_str().unwrap_or("null"), &mut st)
@@ -499,6 +611,7 @@ pub fn property() -> Property {
         subs: vec![
             Sub::Custom(CustomSub { name: "table", run: table, replay: replay_cell }),
             Sub::Custom(CustomSub { name: "wide-arity", run: wide_arity, replay: replay_wide }),
+            Sub::Custom(CustomSub { name: "builtin-structs", run: builtin_structs, replay: replay_structs }),
             Sub::Bytes(BytesSub { name: "well-typed", f: well_typed, max_len: 1500, quick: Budget { threads: 8, cases: 16000 }, thorough: Budget { threads: 16, cases: 150_000 }, keep_unreproducible: false }),
             Sub::Bytes(BytesSub { name: "call-sequences", f: call_sequences, max_len: 2000, quick: Budget { threads: 8, cases: 10000 }, thorough: Budget { threads: 16, cases: 100_000 }, keep_unreproducible: false }),
         ],
